@@ -1,6 +1,8 @@
 #!/usr/bin/env python3
 """Development helper (not used by registered checks): run mirsym queries of a property against a cached MIR dump.
-usage: python3-vt mirsym/dev.py <Cxx> [substring] [--refresh]"""
+usage: python3-vt mirsym/dev.py <Cxx> [substring] [--refresh] [--seed <seed-id>] [--replay]
+  --seed: use a cached copy of /repo with seeded/<seed-id>/patch.diff applied (cache /var/tmp/vs-<seed-id>)
+  --replay: run the native replay of violated queries (dev + release) and say whether it reproduces"""
 import sys, os, time
 HERE = os.path.dirname(os.path.abspath(__file__))
 sys.path.insert(0, HERE)
@@ -9,17 +11,46 @@ sys.path.insert(0, os.path.join(HERE, "..", "props"))
 import importlib, subprocess
 import engine, mir_engine
 CACHE = "/var/tmp/vs"
-if "--refresh" in sys.argv:
-    sys.argv.remove("--refresh")
+args = sys.argv[1:]
+seed = None
+if "--seed" in args:
+    i = args.index("--seed")
+    seed = args[i + 1]
+    del args[i:i + 2]
+    CACHE = "/var/tmp/vs-" + seed
+do_replay = "--replay" in args
+if do_replay:
+    args.remove("--replay")
+refresh = "--refresh" in args
+if refresh:
+    args.remove("--refresh")
+if refresh or not os.path.exists(CACHE + "/similari.mir"):
+    os.makedirs(CACHE, exist_ok=True)
     subprocess.check_call(["rsync", "-a", "--delete", "--exclude", "/target", "--exclude", ".git", "/repo/", CACHE + "/repo/"])
+    if seed:
+        subprocess.check_call(["patch", "-s", "-p1", "-i", os.path.join(HERE, "..", "seeded", seed, "patch.diff")], cwd=CACHE + "/repo")
     engine.dump_mir(CACHE + "/repo", CACHE + "/similari.mir", CACHE + "/mirtarget")
-pid = sys.argv[1]
-sub = sys.argv[2] if len(sys.argv) > 2 else ""
+pid = args[0]
+sub = args[1] if len(args) > 1 else ""
 mod = importlib.import_module(pid)
+
+
+class Sc:
+    dir = CACHE
+    repo = CACHE + "/repo"
+
+
 for q in mod.MIR:
     if sub in q.name:
         t = time.time()
         o = mir_engine._worker(CACHE + "/similari.mir", CACHE + "/repo", pid, q.name, 0)
         print("%-40s %-12s paths=%d z3=%d (%.1fs solver) %.1fs %s" % (q.name, o["status"], o["paths"], o["queries"], o["solver_s"], time.time() - t, o["detail"][-500:]))
         if o["status"] == "violated":
-            print("   cex:", {k: v for k, v in list(o["cex"]["inputs"].items())[:12]}, o["cex"]["info"])
+            print("   cex:", {k: v for k, v in list(o["cex"]["inputs"].items())[:16]}, o["cex"]["info"])
+            if do_replay:
+                if not o["replay_src"]:
+                    print("   NO REPLAY SOURCE")
+                else:
+                    open(CACHE + "/last_replay.rs", "w").write(o["replay_src"])
+                    n = mir_engine.native_replay(Sc, o["replay_src"])
+                    print("   native replay fails in %s profile(s) (source: %s/last_replay.rs)" % (n, CACHE))
